@@ -22,6 +22,18 @@ logging.disable(logging.CRITICAL)
 RESOURCE = references.Resource('g', 'v1', 'things', namespaced=True)
 ENCODED = [queueing.watcher, queueing.worker, queueing._wait_for_depletion, queueing.get_uid,
            queueing.get_version, aiotasks.Scheduler]
+META = {
+    'bounds': 'one watch stream; 2 events per cell in the quick tier (uid patterns a,a / a,b; worker_limit None or 1; a BOOKMARK item '
+              'interleaved; 3 objects with worker_limit=1), 3 events per cell in the thorough tier (5 uid patterns x 2 limits); gaps between '
+              'arrivals, processing durations, idle timeout (>= 1), exit timeout and the cancellation instant are unbounded symbolic '
+              'integers (virtual seconds); ties between equal deadlines are symbolic booleans; a processor failure at a symbolic position.',
+    'outside': '4 or more events per stream in one cell (> 50 CPU-minutes each, did not exhaust); idle_timeout = 0 (degenerate: the worker '
+               'spins); real threads; several streams of one resource; non-integer instants (time arithmetic in this code is '
+               'comparison/addition only, reals would give the same branch structure).',
+    'stubs': ['watching.infinite_watch -> generator yielding the scripted events after symbolic gaps',
+              'processor -> recording coroutine sleeping a symbolic duration (the real one is C02/C05/C07)'],
+    'assumptions': ['events of one stream arrive in order (C19)'],
+}
 LAST_TRACE = None
 
 
